@@ -225,11 +225,12 @@ var plans = map[string]Plan{
 	},
 	"C17": {
 		Level: "fault_enumeration",
-		Rule: "cases are sandboxes (Thrift sources in a layout, output dir fresh or pre-populated, 0-3 scripted plugins returning files) run through the real thriftrw binary with the whole sandbox snapshotted (path, mode, SHA-256) before and after. Complete grids: 11 plugin path shapes x {independent, equal to a core path, equal to another plugin's path} x pre-population (66); k-th of n modules fails x 5 failure kinds (500); failing plugin i of n x 20 handshake/generate failure kinds (240); 11 thrift-root / out-dir layouts (396); plus random combinations. " +
-			"Oracle: nothing outside the output dir changes; exit != 0 => snapshot unchanged; same destination from two sources => error; exit 0 => exactly the predicted files exist with the predicted contents. " +
+		Rule: "cases are sandboxes (Thrift sources in a layout, output dir fresh or pre-populated, 0-3 scripted plugins returning files) run through the real thriftrw binary with the whole sandbox snapshotted (path, mode, SHA-256) before and after. Complete grids: 11 plugin path shapes x {independent; equal to a core path with bytes of its own / exactly the core-generated bytes / those bytes with one byte changed; equal to another plugin's path with bytes of its own / identical bytes} x pre-population (132); k-th of n modules fails x 5 failure kinds (500); failing plugin i of n x 20 handshake/generate failure kinds (240); 11 thrift-root / out-dir layouts (396); plus random combinations. " +
+			"Oracle: nothing outside the output dir changes; exit != 0 => snapshot unchanged; same destination from two sources => error, whatever the two contents are; exit 0 => exactly the predicted files exist with the predicted contents. " +
 			"Non-trivial: a plugin path that is not a plain relative path, or a case that must fail. Distinct: SHA-256 of the case JSON.",
 		Assumptions: []string{
 			"lexical cleaning is the meaning of 'the same path' (no symlinks in the sandbox); only handshake- and generate-phase plugin failures are injected (as the statement lists); write-phase I/O errors are outside the statement (see DESIGN.md)",
+			"the bytes the core generator produces for a path are learnt from a preliminary run of the same command line without plugins in a sandbox at the same absolute path; if that run fails the plugin returns a fixed text instead (the case then must fail anyway)",
 		},
 		Prebuild: []Prebuild{{Name: "thriftrw", Pkg: "go.uber.org/thriftrw"}, {Name: "fakeplugin", Pkg: "verif/harness/fakeplugin"}},
 		Units: []Unit{
@@ -317,7 +318,7 @@ var plans = map[string]Plan{
 	},
 	"C15": {
 		Level: "exploration",
-		Rule: "cases are (generated type, value, value differing only in go.redact field values, value differing only in go.nolog fields) over programs generated with one field in two carrying go.redact and one in four go.nolog, on fields of every type, in structs, unions, exceptions and function argument / result structs, reached through lists, sets, maps and typedefs; string / binary leaves of redacted fields carry unique markers; zap generation on and off. " +
+		Rule: "cases are (generated type, value, value differing only in go.redact field values, value differing only in go.nolog fields) over programs generated with one field in two carrying go.redact and one in four go.nolog, on fields of every type, in structs, unions, exceptions and function argument / result structs, reached through lists, sets, maps and typedefs; typedefs, structs, unions, exceptions, enums and base / container type expressions carry annotations of other tools (validate.format, owner, pii, ...; slice-annotated sets too), so that the type of a redacted / no-log field often has annotations of its own; string / binary leaves of redacted fields carry unique markers; zap generation on and off. " +
 			"Oracle: String(), Error() and the zap JSON (arrays compared as multisets) are identical for values that differ only in redacted field values; zap JSON is identical for values that differ only in no-log fields; no marker (raw, base64, decimal bytes) occurs in any output; every other set top-level field appears (Go name in String(), label key in zap) and no-log keys are absent. " +
 			"Non-trivial: a redacted field sits at nesting depth >=1 below the printed value. Distinct: SHA-256 of (program, type, value, alternative value).",
 		Assumptions: []string{
@@ -346,8 +347,8 @@ var plans = map[string]Plan{
 	},
 	"C19": {
 		Level: "exploration",
-		Rule: "cases are (program with services, option set {recurse, no-recurse} x {zap, no-zap}): services whose parameters / returns / exceptions range over required and optional primitives, enums, binary, nested containers, unhashable keys, slice-annotated sets, typedefs of each, structs, cross-file references, services extending services across files, go.name on parameters and exceptions. An in-process ServiceGenerator captures every GenerateServiceRequest and returns, into the generated packages, probe files rendered with plugin.GoFileFromTemplate / formatType; the lab is then built. The helpers of every function are exercised at run time by the reflection driver (success value, each declared exception, undeclared exception types and plain errors). " +
-			"Oracle: request self-consistency against the model (ids resolve, parent chains acyclic and as declared, root services == services of the generated files, Go names, import paths, directories, function / argument / exception lists); the probe assignments '*<formatted type> = &args.Field' and 'func(<formatted type>, error) ... = Helper.WrapResponse' type-check only for identical types, so the build decides identity; WrapResponse / UnwrapResponse map values and declared exceptions to the result struct and back without loss and refuse undeclared errors; IsException agrees. " +
+		Rule: "cases are (program with services, option set {recurse, no-recurse} x {zap, no-zap}): services whose parameters / returns / exceptions range over required and optional primitives, enums, binary, nested containers, unhashable keys, slice-annotated sets, typedefs of each, structs, cross-file references, services extending services across files, go.name on parameters and exceptions; programs of 1-5 files, one in two of those with >= 3 files having three or four files of ONE base name in different directories (a/types, b/types, c/types; including each other, services extending services of same-named files). An in-process ServiceGenerator captures every GenerateServiceRequest and returns probe files rendered with plugin.GoFileFromTemplate / formatType / import: one per module inside the generated package (root services), and one per request in a package of its own that covers EVERY service of the request (roots and ancestors) and therefore imports all their packages in a single rendering; the lab is then built. The helpers of every function are exercised at run time by the reflection driver (success value, each declared exception, undeclared exception types and plain errors). " +
+			"Oracle: request self-consistency against the model (ids resolve, parent chains acyclic and as declared, root services == services of the generated files, Go names, import paths, directories, function / argument / exception lists); the probe assignments '*<formatted type> = &args.Field' and 'func(<formatted type>, error) ... = Helper.WrapResponse' type-check only for identical types, so the build decides identity (an import name given to two packages, or one Go refuses, fails the build too: keys probe/import-name/*); WrapResponse / UnwrapResponse map values and declared exceptions to the result struct and back without loss and refuse undeclared errors; IsException agrees. " +
 			"Non-trivial: program with >=2 functions (request/probes); any exception / undeclared-error case or a non-scalar return (helpers). Distinct: SHA-256 of (program, options) resp. of the helper case.",
 		Assumptions: []string{
 			"pointer / func assignability in Go holds only for identical types, so a successful build of the probe proves type identity",
